@@ -52,7 +52,9 @@ def run(ctx: Ctx):
                 t.insert(rng.randrange(len(t) + 1), rng.choice(["2", "0.5", "3", "2.5", "4"]))
         f = ("1 + " if intercept else "0 + ") + " + ".join(":".join(t) for t in terms)
         wrt = [rng.choice(VARS + ["zz"]) for _ in range(rng.choice([1, 1, 1, 2, 2, 3]))]
-        F = Formula(f)
+        ordering = rng.choice(["degree", "degree", "none", "sort"])            # however the formula orders its terms, the derivative keeps THAT order
+        F = Formula(f) if ordering == "degree" else Formula(f, _ordering=ordering)
+        ctx.count("diff", f"ordering={ordering}")
         D = F.differentiate(*wrt)
         all_terms = [[fc.expr for fc in t.factors if fc.expr != "1"] for t in F]
         got = [[fc.expr for fc in t.factors] for t in D]
